@@ -15,6 +15,29 @@ CH_NOTE = ("Trusted: CPython, CrossHair 0.0.110's models of int/bool/str primiti
            "replayed under /venv/bin/python without CrossHair before it is reported.")
 
 CLAIMS = {
+    'C04': dict(
+        engine='CH',
+        technique='solver-driven path exploration of the real scanner pipeline with CrossHair/z3 (finite-choice '
+                  'inputs fixed by solver-decided forks, exhaustion certified by the solver); oracle from the '
+                  'property statement; counterexamples replayed concretely',
+        category='model_checking',
+        text='(a) one function foo_<prefix words>_<verb> over 7 prefix-word choices (text, text_buffer, text_view, rec, '
+             'boxed, other, none) x 7 verbs (new, new_with_x, newv, get_x, free, renew, news) x 8 first-parameter types x '
+             '8 return types x {no annotation, (method), (constructor)} x typedef-before/after-struct, in a namespace '
+             'with classes Text, TextBuffer (unrelated), TextView (derived from Text), a plain and a boxed record: '
+             'described exactly once (moved-to copies apart), method only of its first-parameter type whose prefix it '
+             'carries unless annotated, constructor only when returning the type or an ancestor, names stripped of '
+             'namespace and type prefix, bystanders from other namespaces / with underscores left out, every type once '
+             'under its C name, no duplicate C identifiers. (b) every declaration kind x 5 prefix situations x typedef '
+             'orders x duplicate typedefs. (c) strip_identifier/_strip_symbol over 5 prefix sets (several prefixes, one '
+             'a prefix of the other) x 3 include prefixes x 11-13 names x accept-unprefixed. CrossHair "Confirmed over '
+             'all paths" per partition.',
+        design_ref='DESIGN.md section 4, C04',
+        note=CH_NOTE + ' Finite-choice inputs are fixed by solver-decided binary search (vlib/sym.py). Names are built '
+             'from chosen words: exploring arbitrary identifier strings symbolically through the prefix code did not '
+             'terminate in CrossHair within minutes for 3-character strings (measured; DESIGN section 4 C04) and is '
+             'outside the claim, as are filter commands and Gio special cases. One recorded finding (annotated method '
+             'keeps its type prefix) is checked in items of its own.'),
     'C18': dict(
         engine='SCHED',
         technique='stateless model checking of the real giscanner.cachestore code over a fake POSIX layer: every '
